@@ -211,8 +211,7 @@ const (
 	DevE                   // FORWARD: the source pod's egress verdict is final, destination ingress not consulted
 	DevF                   // port entries without a number are dropped (none left: all protocols)
 	DevG                   // ipBlock peers of one rule share one hash:net set: an except shadows other peers' cidrs
-	DevM                   // a rule with > 15 ports of one protocol: iptables refuses the batch, NOTHING is enforced
-	DevAll = DevA | DevB | DevC | DevD | DevE | DevF | DevG | DevM
+	DevAll = DevA | DevB | DevC | DevD | DevE | DevF | DevG
 )
 
 var DevNames = map[Dev]string{
@@ -223,13 +222,14 @@ var DevNames = map[Dev]string{
 	DevE: "same-node-egress-accept-skips-ingress",
 	DevF: "portless-port-entry",
 	DevG: "ipblock-except-shadows-other-peer",
-	DevM: "multiport-more-than-15-ports",
 }
 
-var DevOrder = []Dev{DevA, DevB, DevC, DevD, DevE, DevF, DevG, DevM}
+var DevOrder = []Dev{DevA, DevB, DevC, DevD, DevE, DevF, DevG}
 
-// OverLimit: does some rule galaxy emits for these policies carry more than 15 ports of one protocol?  (A rule is
-// emitted for every rule of a compiled direction that has at least one peer.)
+// OverLimit: does some rule of these policies list more than 15 ports of one protocol?  Since repo commit 8f04d5f
+// galaxy splits such a rule over several iptables rules of at most 15 ports; before, the one emitted rule was refused
+// by iptables ("multiport-more-than-15-ports", fixed).  Not a deviation any more: a refusal by LimitIPT is an
+// unexplained violation.  (A rule is emitted for every rule of a compiled direction that has at least one peer.)
 func OverLimit(ps []NetPol) bool {
 	over := func(rs []Rule) bool {
 		for _, r := range rs {
@@ -379,9 +379,6 @@ func isolated(ps []NetPol, pod *Pod, ingress bool) bool {
 
 // Predicted: expected verdict of the installed rules on node c.Node under the enabled deviations.
 func Predicted(c *Cluster, ps []NetPol, f *Flow, dev Dev) bool {
-	if dev&DevM != 0 && OverLimit(ps) {
-		return true // the policy batch is refused, every pod batch after it too: no chain, no hook
-	}
 	s, d := c.podByIP(f.Src), c.podByIP(f.Dst)
 	egressHooked := f.Hook != "OUTPUT" && s != nil && s.Node == c.Node && isolated(ps, s, false)
 	ingressHooked := f.Hook != "INPUT" && d != nil && d.Node == c.Node && isolated(ps, d, true)
